@@ -308,3 +308,94 @@ package syntax
 //@   pure
 //@   requires c != nil
 //@   ensures b == UsesStart(c)
+
+// ---------------------------------------------------------------------------------------------
+// C04: compile-time facts. Minimum / maximum match length (tree.go) against a ghost semantics of node kinds.
+// ---------------------------------------------------------------------------------------------
+
+// Span(n, k): "node n can consume exactly k runes in some match". The axioms below say what each node kind
+// implies about k; they are the (trusted) ghost semantics of the node kinds, written once.
+//@ ghost func Span(n *RegexNode, k int) bool
+// PrefSpan(n, i, k): the first i children of a concatenation can consume exactly k runes, one after the other.
+//@ ghost func PrefSpan(n *RegexNode, i int, k int) bool
+// LoopSpan(n, c, k): c iterations of the body of loop n consume k runes
+//@ ghost func LoopSpan(n *RegexNode, c int, k int) bool
+//@ spec func IsOneLoop(t NodeType) bool = t == NtOneloop || t == NtNotoneloop || t == NtSetloop || t == NtOnelazy || t == NtNotonelazy || t == NtSetlazy || t == NtOneloopatomic || t == NtNotoneloopatomic || t == NtSetloopatomic
+//@ spec func IsZeroWidth(t NodeType) bool = t == NtEmpty || t == NtNothing || t == NtBeginning || t == NtBol || t == NtBoundary || t == NtECMABoundary || t == NtEnd || t == NtEndZ || t == NtEol ||
+//@     t == NtNonboundary || t == NtNonECMABoundary || t == NtStart || t == NtNegLook || t == NtPosLook || t == NtUpdateBumpalong
+//@ axiom span-kinds: forall n *RegexNode, k int {Span(n, k)} :: n != nil && Span(n, k) ==> k >= 0 &&
+//@     ((n.T == NtOne || n.T == NtNotone || n.T == NtSet) ==> k == 1) &&
+//@     (n.T == NtMulti ==> k == len(n.Str)) &&
+//@     (IsOneLoop(n.T) ==> n.M <= k && (n.N == 2147483647 || k <= n.N)) &&
+//@     ((n.T == NtAtomic || n.T == NtCapture || n.T == NtGroup) ==> Span(n.Children[0], k)) &&
+//@     (n.T == NtAlternate ==> exists i int :: 0 <= i && i < len(n.Children) && Span(n.Children[i], k)) &&
+//@     (n.T == NtConcatenate ==> PrefSpan(n, len(n.Children), k)) &&
+//@     ((n.T == NtLoop || n.T == NtLazyloop) ==> exists c int :: n.M <= c && (n.N == 2147483647 || c <= n.N) && LoopSpan(n, c, k)) &&
+//@     (n.T == NtBackRefCond ==> Span(n.Children[0], k) || Span(n.Children[1], k)) &&
+//@     (n.T == NtExprCond ==> Span(n.Children[1], k) || Span(n.Children[2], k)) &&
+//@     (IsZeroWidth(n.T) ==> k == 0)
+//@ axiom prefspan: forall n *RegexNode, i int, k int {PrefSpan(n, i, k)} :: PrefSpan(n, i, k) ==> k >= 0 && (i == 0 ==> k == 0) &&
+//@     (i > 0 ==> exists a int, b int :: a + b == k && PrefSpan(n, i - 1, a) && Span(n.Children[i-1], b))
+// bounds that c iterations inherit from one iteration (the induction over c is done here, once, by hand)
+//@ axiom loopspan-lo: forall n *RegexNode, c int, k int, lo int {LoopSpan(n, c, k), MinSpanIs(n.Children[0], lo)} :: LoopSpan(n, c, k) && c >= n.M && n.M >= 0 && lo >= 0 && MinSpanIs(n.Children[0], lo) ==> k >= n.M * lo
+//@ axiom loopspan-hi: forall n *RegexNode, c int, k int, hi int {LoopSpan(n, c, k), MaxSpanIs(n.Children[0], hi)} :: LoopSpan(n, c, k) && 0 <= c && c <= n.N && hi >= 0 && MaxSpanIs(n.Children[0], hi) ==> k <= n.N * hi
+// the two loop facts in the form the length computations use them (consequences of span-kinds + loopspan-lo/hi)
+//@ axiom loop-min: forall n *RegexNode, lo int {MinSpanIs(n.Children[0], lo)} :: n != nil && (n.T == NtLoop || n.T == NtLazyloop) && lo >= 0 && n.M >= 0 && MinSpanIs(n.Children[0], lo) ==> MinSpanIs(n, n.M * lo)
+//@ axiom loop-max: forall n *RegexNode, hi int {MaxSpanIs(n.Children[0], hi)} :: n != nil && (n.T == NtLoop || n.T == NtLazyloop) && hi >= 0 && n.N >= 0 && n.N != 2147483647 && MaxSpanIs(n.Children[0], hi) ==> MaxSpanIs(n, n.N * hi)
+// "lo is a lower bound of every span of n" / "hi is an upper bound" as first-class facts (so they can be triggers)
+//@ ghost func MinSpanIs(n *RegexNode, lo int) bool
+//@ ghost func MaxSpanIs(n *RegexNode, hi int) bool
+//@ axiom minspan-def: forall n *RegexNode, lo int {MinSpanIs(n, lo)} :: MinSpanIs(n, lo) == (forall k int {Span(n, k)} :: Span(n, k) ==> lo <= k)
+//@ axiom maxspan-def: forall n *RegexNode, hi int {MaxSpanIs(n, hi)} :: MaxSpanIs(n, hi) == (forall k int {Span(n, k)} :: Span(n, k) ==> k <= hi)
+
+// Structural well-formedness of trees handed to the analyses (what the parser and reducer build)
+//@ ghost func NodeWF(n *RegexNode) bool
+//@ axiom nodewf: forall n *RegexNode {NodeWF(n)} :: NodeWF(n) ==> n != nil && n.M >= 0 && n.N >= 0 && off(n.Children) == 0 &&
+//@     (forall i int {n.Children[i]} :: 0 <= i && i < len(n.Children) ==> NodeWF(n.Children[i])) &&
+//@     ((n.T == NtLoop || n.T == NtLazyloop || n.T == NtAtomic || n.T == NtCapture || n.T == NtGroup) ==> len(n.Children) >= 1) &&
+//@     (n.T == NtAlternate ==> len(n.Children) >= 1) && (n.T == NtBackRefCond ==> len(n.Children) == 2) && (n.T == NtExprCond ==> len(n.Children) == 3)
+
+//@ func addMinLength(x int, y int) (r int)
+//@   props C04 C10
+//@   overflow
+//@   requires x >= 0 && y >= 0
+//@   ensures r == min(x + y, 2147483646)
+//@ func multiplyMinLength(x int, y int) (r int)
+//@   props C04 C10
+//@   overflow
+//@   requires x >= 0 && y >= 0
+//@   ensures r == min(x * y, 2147483646)
+//@ func addMaxLength(x int, y int) (r int)
+//@   props C04 C10
+//@   overflow
+//@   ensures r == -1 || (x >= 0 && y >= 0 && r == x + y)
+//@ func multiplyMaxLength(x int, y int) (r int)
+//@   props C04 C10
+//@   overflow
+//@   ensures r == -1 || (x >= 0 && y >= 0 && r == x * y)
+
+//@ func (n *RegexNode) ComputeMinLength() (r int)
+//@   props C04
+//@   requires NodeWF(n)
+//@   ensures[lower-bound] 0 <= r && MinSpanIs(n, r)
+//@   loop 0:
+//@     invariant 1 <= i && i <= len(n.Children) && childCount == len(n.Children) && n.T == NtAlternate && 0 <= min
+//@     invariant forall j int :: 0 <= j && j < i ==> MinSpanIs(n.Children[j], min)
+//@     decreases childCount - i
+//@   loop 1:
+//@     invariant 0 <= i && i <= len(n.Children) && n.T == NtConcatenate && 0 <= sum
+//@     invariant forall k int {PrefSpan(n, i, k)} :: PrefSpan(n, i, k) ==> sum <= k
+//@     decreases len(n.Children) - i
+
+//@ func (n *RegexNode) computeMaxLength() (r int)
+//@   props C04
+//@   requires NodeWF(n)
+//@   ensures[upper-bound] r >= -1 && (r >= 0 ==> MaxSpanIs(n, r))
+//@   loop 0:
+//@     invariant 1 <= i && i <= len(n.Children) && n.T == NtAlternate && 0 <= c
+//@     invariant forall j int :: 0 <= j && j < i ==> MaxSpanIs(n.Children[j], c)
+//@     decreases len(n.Children) - i
+//@   loop 1:
+//@     invariant 0 <= i && i <= len(n.Children) && n.T == NtConcatenate && 0 <= sum
+//@     invariant forall k int {PrefSpan(n, i, k)} :: PrefSpan(n, i, k) ==> k <= sum
+//@     decreases len(n.Children) - i
